@@ -53,6 +53,15 @@ def run(tier):
     cr.ext_obligations.append(guards.writes_only_through(
         "dsl_compiler/src/layout/connection_planner.py", "wire_connections", "add_wire_connection",
         {"_create_relay_chain", "_restore_preserved_connection", "_add_self_feedback_connections"}))
+    from bounded import pipeline
+    from bounded.contract_enum import run_contract_enum
+    from contracts import c08 as _c08
+    pipeline.ensure_repo()
+    rargs = _c08.route_signal_arg_sets()
+    cr.bounded_check(run_contract_enum, "relay-routing-box", _c08.route_signal_box, rargs,
+                     f"{len(rargs)} routes (distances 5..60 in eight directions x free / walled / scattered ground x no / same-network / other-network earlier routes on the same or the other "
+                     "colour): every hop within the span, every relay carries this network alone on this colour, new relays on free tiles and in the plan, a path is always found on "
+                     "free ground (contract evaluated on the real RelayNetwork.route_signal and the five functions below it)")
     progs = scope(tier)
     modes = MODES_QUICK if tier == "quick" else MODES_FULL
     cr.bounded_check(run_geometry_scope, "pasteable", progs, modes, ("paste", "relay"),
